@@ -860,19 +860,26 @@ func (m *MutableOverlayWorld) AddFeature(f Feature) error {
 		return err
 	}
 
-	existing := (*m.features)[f.FeatureID()]
+	existing, ok := (*m.features)[f.FeatureID()]
 	references := allReferences(f, m)
-	if existing != nil {
+	if len(references) > 0 {
+		// Features referencing f must remain valid, whether f currently
+		// lives in this overlay or only in the base world.
 		(*m.features)[f.FeatureID()] = f
-
+		var err error
 		for _, reference := range references {
-			if err := ValidateFeature(NewFeatureFromWorld(reference), &ValidateOptions{InvertClockwisePaths: false}, m); err != nil {
-				(*m.features)[f.FeatureID()] = existing
-				return err
+			if err = ValidateFeature(NewFeatureFromWorld(reference), &ValidateOptions{InvertClockwisePaths: false}, m); err != nil {
+				break
 			}
 		}
-
-		(*m.features)[f.FeatureID()] = existing
+		if ok {
+			(*m.features)[f.FeatureID()] = existing
+		} else {
+			delete(*m.features, f.FeatureID())
+		}
+		if err != nil {
+			return err
+		}
 	}
 
 	modified := NewModifiedFeaturesWithCopies(f, references, m.features, m)
